@@ -305,6 +305,10 @@ def run_scenario(sc, strategy, line_level=False, max_steps=6000):
             if action == 'ping':
                 peer.p2c.append(f'pong {ident} [null, {{"t": 1}}]')
                 s.log(ev='peer_send', kind='pong', ident=ident)
+            elif gid in sc.get('errors', ()) and action in ('read', 'change'):
+                # the node answers this request with an error reply
+                peer.p2c.append(f'error_{action} {ident} ["HardwareError", "x{gid}", {{}}]')
+                s.log(ev='peer_send', kind='error', ident=ident, gid=gid)
             elif action == 'read':
                 peer.p2c.append(f'reply {ident} [{gid}, {{"t": 1}}]')
                 s.log(ev='peer_send', kind='reply', ident=ident, gid=gid)
